@@ -213,9 +213,21 @@ def test_interval(test, x, dom):
     """The subset of dom on which a comparison test holds, as an Interval, when the
     compared quantity is a Moebius function of x that is monotone on dom."""
     if test.op == "and":
+        # plain comparisons first; disjunctions are then resolved inside what the comparisons leave
         iv = dom
+        flat = []
         for a in test.args:
-            iv = iv.intersect(test_interval(a, x, dom))
+            flat.extend(a.args if a.op == "and" else [a])
+        simple = [a for a in flat if a.op == "cmp" or (a.op == "not" and a.args[0].op == "cmp")]
+        rest = [a for a in flat if a not in simple]
+        for a in simple + rest:
+            if not iv.nonempty_interior():
+                return iv
+            if a.is_const:
+                if not S.truthy(a):
+                    return Interval(0, 0, True, True)
+                continue
+            iv = iv.intersect(test_interval(a, x, iv))
         return iv
     if test.op == "not":
         inner = test.args[0]
@@ -264,6 +276,21 @@ def test_interval(test, x, dom):
         v = eval_mobius(m, dom.lo if dom.lo is not None else Fraction(0))
         holds = {"<": v < k, "<=": v <= k, ">": v > k, ">=": v >= k}[op]
         return dom if holds else Interval(Fraction(0), Fraction(0), True, True)
+    # the solution may lie on the other branch of the hyperbola (beyond the pole): then the comparison has one truth value on dom
+    a_, b_, c_, d_ = m
+    if c_ != 0:
+        pole = -Fraction(d_) / Fraction(c_)
+        ref = dom.lo if dom.lo is not None else (dom.hi if dom.hi is not None else Fraction(0))
+        if dom.lo is not None and dom.hi is not None:
+            ref = (dom.lo + dom.hi) / 2
+        elif dom.lo is not None:
+            ref = dom.lo + 1
+        elif dom.hi is not None:
+            ref = dom.hi - 1
+        if (x0 < pole) != (ref < pole):
+            v = eval_mobius(m, ref)
+            holds = {"<": v < k, "<=": v <= k, ">": v > k, ">=": v >= k}[op]
+            return dom if holds else Interval(Fraction(0), Fraction(0), True, True)
     less = op in ("<", "<=")
     strict = op in ("<", ">")
     if (direction > 0) == less:
@@ -275,10 +302,9 @@ def pieces(e, x, dom, alternatives):
     """Feasible alternatives of a conditional expression: [(Interval, leaf)], sorted."""
     out = []
     for tests, leaf in alternatives(e):
-        iv = dom
-        for lbl, t in tests:
-            tt = t if lbl == "T" else S.enot(t)
-            iv = iv.intersect(test_interval(tt, x, dom))
+        # the branch's path condition as one conjunction (plain comparisons narrow first, see test_interval)
+        conj = [t if lbl == "T" else S.enot(t) for lbl, t in tests]
+        iv = test_interval(S.E("and", *conj), x, dom) if conj else dom
         if iv.nonempty_interior():
             out.append((iv, leaf))
     out.sort(key=lambda p: (p[0].lo is not None, p[0].lo if p[0].lo is not None else 0))
